@@ -8,7 +8,7 @@ from . import engine, gen, oracles
 
 def gen_cfg(rng, deterministic=False, averaging_p=0.3, noise_p=0.25, box_p=0.35, proj_p=0.08, reg_p=0.08,
             restarts_p=0.45, nmax=4, mmax=7, maxfuns=(12, 25, 40, 60, 100), kinds=("linear", "sinlin", "exp", "rosen"),
-            allow=("restarts", "regression", "growing", "tols", "random_init"), npt_p=0.3, term_p=0.3):
+            allow=("restarts", "regression", "growing", "tols", "random_init", "rare"), npt_p=0.3, term_p=0.3):
     r = rng.random
     spec = gen.gen_problem(rng, kinds=kinds, nmax=nmax, mmax=mmax, noise_p=(0.0 if deterministic else noise_p))
     n = spec["n"]
@@ -47,8 +47,12 @@ def gen_cfg(rng, deterministic=False, averaging_p=0.3, noise_p=0.25, box_p=0.35,
         up.pop("init.random_initial_directions", None)
         up.pop("init.run_in_parallel", None)
         up.pop("init.random_directions_make_orthogonal", None)
+        if "rare" in allow:
+            gen.rare_options(up, n, p_block=0.5, proj=True)
     elif v < box_p + proj_p + reg_p:
         cfg["reg"] = dict(type=gen.pick(rng, ["l1", "l2"]), lam=float(10.0 ** rng.uniform(-2, 0)))
+        if "rare" in allow:
+            gen.rare_options(up, n, p_block=0.5, reg=True)
         args["maxfun"] = min(args["maxfun"], 30)
         if r() < 0.4:
             box = gen.gen_box(rng, n, scaling_p=0.0, place_p=0.3, one_sided_p=0.0)
